@@ -3,6 +3,7 @@ to every source pattern of engine.pat, so that rules see (and are written agains
 
   N1  x = x op e                      ->  x op= e
   N2  c < x  (constant on the left)   ->  x > c ;   a < b / a <= b (no constant operand)  ->  b > a / b >= a
+      (== / != between two non-constant operands keep their order; engine.pat tries both orientations when matching them)
   N3  if not C: A else: B             ->  if C: B else: A       (else-arm present and not an elif chain)
 
 Each rewrite preserves behaviour for the builtin types the package compares and accumulates (ints, bytes, str, names, lists).
@@ -25,6 +26,7 @@ def normalise(tree: ast.AST) -> ast.AST:
             l, r = n.left, n.comparators[0]
             if (_is_const(l) and not _is_const(r)) or (not _is_const(l) and not _is_const(r) and isinstance(n.ops[0], (ast.Lt, ast.LtE))):
                 n.left, n.comparators, n.ops = r, [l], [_FLIP[type(n.ops[0])]()]
+
         elif isinstance(n, ast.If) and isinstance(n.test, ast.UnaryOp) and isinstance(n.test.op, ast.Not) and n.orelse \
                 and not (len(n.orelse) == 1 and isinstance(n.orelse[0], ast.If)) and not _only_ellipsis(n.orelse):
             n.test = n.test.operand
